@@ -20,7 +20,7 @@ from . import runner
 from . import shrink as SHR
 from . import templates as T
 from . import world
-from .codec import canon
+from .codec import canon, h64
 from .env import VERIF_ROOT, seed_from_env
 
 KNOWN_FILE = os.path.join(VERIF_ROOT, "known_findings.json")
@@ -30,10 +30,12 @@ EVIDENCE_DIR = os.path.join(VERIF_ROOT, "evidence")
 _CTX = {}
 
 
-def init_world():
+def init_world(auto=True):
     world.load()
     if not any(k.startswith("cog") for k in T.FAMILIES):
         T.build_cog(world.CENSUS)
+        if auto:
+            T.build_auto(os.path.join(VERIF_ROOT, "auto_pool.json"))
     discover.init()
 
 
@@ -224,9 +226,19 @@ class Aggregate(object):
                     self.dirty_vars.setdefault(k, set()).add(v)
 
 
-def plan_tasks(prop, tier, seed, n_corner, n_swarm, state_every=5):
+def plan_tasks(prop, tier, seed, n_corner, n_swarm, state_every=5, n_corner_all=None):
     tasks = []
-    for k in range(n_corner):
+    total = n_corner_all or n_corner
+    ks = list(range(n_corner))
+    if n_corner and n_corner < total:
+        # a seed-rotated strided subset of the fixed cornerstone list (the thorough tier runs all of it)
+        import math
+        step = max(1, total // n_corner)
+        while math.gcd(step, total) != 1:
+            step += 1
+        off = h64(seed, "cornerstone-offset") % total
+        ks = sorted({(off + j * step) % total for j in range(n_corner)})
+    for k in ks:
         tasks.append((prop, tier, seed, "cornerstone", k, k % state_every == 0))
     for i in range(n_swarm):
         tasks.append((prop, tier, seed, "swarm", i, i % state_every == 0))
@@ -301,6 +313,7 @@ def main(prop, judge, make, sizes, describe, argv=None):
         return 0
 
     n_corner, n_swarm, wall_cap = sizes(args.tier)
+    n_corner_all = (len(GEN.cornerstone_list(args.tier)) if prop == "C06" else n_corner) if n_corner else 0
     if args.runs is not None:
         n_swarm = args.runs
     if args.corner is not None:
@@ -324,7 +337,7 @@ def main(prop, judge, make, sizes, describe, argv=None):
             else:
                 print("note: listed finding no longer reproduces from its probe (%s): %s" % (e["probe"], e["what"]))
 
-    tasks = plan_tasks(prop, args.tier, seed, n_corner, n_swarm)
+    tasks = plan_tasks(prop, args.tier, seed, min(n_corner, n_corner_all), n_swarm, n_corner_all=n_corner_all)
     results, harness, truncated = run_tasks(tasks, args.workers, wall_cap)
     agg = Aggregate()
     new_viol = {}
